@@ -1,12 +1,107 @@
 (* C10 - static tags, tag de-duplication and filters follow the documented rules.
-   Vocabulary (Model/Tags.v): [new_string_match re_ok p] parses a pattern string,
-   [sm_match re_match sm s] is StringMatch.Match; [re_ok] / [re_match] stand for Go's regexp
-   (Compile succeeds / MatchString) and are universally quantified. *)
-From stdpp Require Import gmap.
-From GS Require Import Base.Bytes Model.Series Model.MetricMap Model.Tags Proofs.Tags.
 
-(* Patterns: exact match, prefix match with a trailing '*', "regex:" (Go regexp, substring
-   match; a trailing '*' belongs to the expression), negation with a leading '!'. *)
+   Vocabulary (Model/Tags.v, a model of pkg/statsd/handler_tags.go, filtering.go, matcher.go):
+   [re_ok] / [re_match] stand for Go's regexp (Compile succeeds / MatchString) and are
+   universally quantified.  [new_string_match re_ok p] parses a pattern, [sm_match re_match sm s]
+   is StringMatch.Match.  [unique_tags_with_seen seen t1 t2] is the swap-with-last loop plus the
+   append loop; results are [Done r], [GoPanic] or [OutOfFuel].
+   [unique_filter_add re_match th name src tags] is uniqueFilterAndAddTags on a metric with the
+   given name, source and tags under handler [th] (static tags [th_tags th], filters
+   [th_filters th]): [Done None] = dropped, [Done (Some (src', r))] = kept with source src' and
+   tags r.
+   [satisfied re_match f name tags]: match-metrics of f empty or matching the name, no
+   exclude-metrics pattern matching the name, match-tags empty or some pattern matching some tag.
+   [removed re_match fs name tags t]: t is a tag of the metric and matches a drop-tags pattern of a
+   satisfied filter of fs.
+   [rekey_counter re_match th] (gauge, timer, set): the body of the Each callback: filter one
+   series of the incoming map, give it its new key and its new source / sorted tags.
+   [kept rk l]: the survivors of the iteration order l, re-keyed, in that order;
+   [group k ks]: those that land on key k.  [dispatch_counters re_match th l] (...): the outgoing
+   map built by iterating over l, any order. *)
+From Coq Require Import QArith Qcanon.
+From GS Require Import Base.Bytes Model.Series Model.MetricMap Model.Tags Proofs.Tags Proofs.TagsDispatch.
+From stdpp Require Import gmap.
+
+(* ---- de-duplication loop -------------------------------------------------------------- *)
+
+(* The in-place loop never indexes out of range and finishes within len(t1) iterations; its
+   result is a permutation of: first occurrences of the tags of t1 not in seen, then the tags of
+   t2 (static tags) that are neither in t1 nor seen; no duplicates if t2 has none. *)
+Theorem C10_unique_loop_spec : forall seen t1 t2,
+  exists r, unique_tags_with_seen seen t1 t2 = Done r
+    /\ r ≡ₚ first_occ seen t1 ++ filter (fun t => t ∉ t1 ++ seen) t2
+    /\ (NoDup t2 -> NoDup r).
+Proof. exact unique_tags_with_seen_spec. Qed.
+Print Assumptions C10_unique_loop_spec.
+
+(* NewTagHandler de-duplicates the configured static tags *)
+Theorem C10_constructor : forall tags filters,
+  exists th, new_tag_handler tags filters = Done th /\ th_filters th = filters
+    /\ NoDup (th_tags th) /\ forall x, x ∈ th_tags th <-> x ∈ tags.
+Proof. exact new_tag_handler_spec. Qed.
+Print Assumptions C10_constructor.
+
+(* ---- one metric ------------------------------------------------------------------------ *)
+
+Theorem C10_never_panics : forall re_match th name src tags,
+  unique_filter_add re_match th name src tags = Done None
+  \/ exists src' r, unique_filter_add re_match th name src tags = Done (Some (src', r)).
+Proof. exact ufa_total. Qed.
+Print Assumptions C10_never_panics.
+
+(* dropped iff some satisfied filter has drop-metric *)
+Theorem C10_dropped_iff : forall re_match th name src tags,
+  unique_filter_add re_match th name src tags = Done None
+  <-> exists f, f ∈ th_filters th /\ satisfied re_match f name tags /\ f_drop_metric f = true.
+Proof. exact ufa_dropped_iff. Qed.
+Print Assumptions C10_dropped_iff.
+
+(* otherwise: an own tag survives iff it is not removed *)
+Theorem C10_tags_removed : forall re_match th name src tags src' r,
+  unique_filter_add re_match th name src tags = Done (Some (src', r)) ->
+  forall t, t ∈ tags -> (t ∈ r <-> ~ removed re_match (th_filters th) name tags t).
+Proof. exact ufa_tags_removed. Qed.
+Print Assumptions C10_tags_removed.
+
+(* a static tag is present iff it is not a removed tag of that metric *)
+Theorem C10_static_tags : forall re_match th name src tags src' r,
+  unique_filter_add re_match th name src tags = Done (Some (src', r)) ->
+  forall s, s ∈ th_tags th -> (s ∈ r <-> ~ removed re_match (th_filters th) name tags s).
+Proof. exact ufa_static_tags. Qed.
+Print Assumptions C10_static_tags.
+
+(* nothing else is added, and there are no duplicates *)
+Theorem C10_no_other_tags : forall re_match th name src tags src' r,
+  unique_filter_add re_match th name src tags = Done (Some (src', r)) ->
+  forall t, t ∈ r -> t ∈ tags \/ t ∈ th_tags th.
+Proof. exact ufa_nothing_else. Qed.
+Print Assumptions C10_no_other_tags.
+
+Theorem C10_no_duplicates : forall re_match th name src tags src' r,
+  unique_filter_add re_match th name src tags = Done (Some (src', r)) -> NoDup (th_tags th) -> NoDup r.
+Proof. exact ufa_nodup. Qed.
+Print Assumptions C10_no_duplicates.
+
+(* the source is cleared exactly when a satisfied filter has drop-host *)
+Theorem C10_drop_host : forall re_match th name src tags src' r,
+  unique_filter_add re_match th name src tags = Done (Some (src', r)) ->
+  ((exists f, f ∈ th_filters th /\ satisfied re_match f name tags /\ f_drop_host f = true) -> src' = [])
+  /\ ((forall f, f ∈ th_filters th -> satisfied re_match f name tags -> f_drop_host f = false) -> src' = src).
+Proof. exact ufa_drop_host. Qed.
+Print Assumptions C10_drop_host.
+
+(* events get the static tags, without duplicates; filters do not apply to them *)
+Theorem C10_events : forall th tags,
+  exists r, dispatch_event th tags = Done r /\ (forall x, x ∈ r <-> x ∈ tags \/ x ∈ th_tags th)
+    /\ (NoDup (th_tags th) -> NoDup r).
+Proof. exact dispatch_event_spec. Qed.
+Print Assumptions C10_events.
+
+(* ---- patterns ---------------------------------------------------------------------------- *)
+
+(* exact match; prefix match with a trailing '*'; "regex:" = Go regexp (MatchString, so a
+   substring match; a trailing '*' belongs to the expression; a pattern that does not compile
+   panics in the constructor); a leading '!' negates. *)
 Theorem C10_pattern_semantics_exact : forall re_ok re_match p,
   str_has_prefix [c_bang] p = false -> str_has_prefix regex_marker p = false -> ends_with_star p = false ->
   exists sm, new_string_match re_ok p = Done sm /\ forall s, sm_match re_match sm s = true <-> s = p.
@@ -33,3 +128,71 @@ Theorem C10_pattern_semantics_inverted : forall re_ok re_match p sm,
               forall s, sm_match re_match sm' s = negb (sm_match re_match sm s).
 Proof. exact pattern_inverted. Qed.
 Print Assumptions C10_pattern_semantics_inverted.
+
+(* ---- collisions: series that coincide after filtering are combined without loss --------- *)
+(* For every iteration order l of the incoming Go map, with ks the re-keyed survivors: the
+   outgoing map has a series at key k iff some survivor lands on k, and that series combines
+   all of them: counter values add, timer values concatenate and sampled counts add, sets
+   unite, the timestamp is the newest; a gauge carries the newest timestamp and the value of
+   a survivor with that timestamp.  Source and tags are those of the first survivor. *)
+Theorem C10_collisions_lossless_counters : forall re_match th l ks,
+  kept (rekey_counter re_match th) l = Done ks ->
+  exists out, dispatch_counters re_match th l = Done out /\ forall k,
+    match group k ks with
+    | [] => out !! k = None
+    | c :: g => out !! k = Some (MkCounter (zsum (c_val <$> c :: g)) (zmax_list (c_ts <$> g) (c_ts c))
+                                           (c_src c) (c_tags c))
+    end.
+Proof. exact lossless_counters. Qed.
+Print Assumptions C10_collisions_lossless_counters.
+
+Theorem C10_collisions_lossless_timers : forall re_match th l ks,
+  kept (rekey_timer re_match th) l = Done ks ->
+  exists out, dispatch_timers re_match th l = Done out /\ forall k,
+    match group k ks with
+    | [] => out !! k = None
+    | t :: g => out !! k = Some (MkTimer (concat (t_vals <$> t :: g)) (qcsum (t_samp <$> t :: g))
+                                         (zmax_list (t_ts <$> g) (t_ts t)) (t_src t) (t_tags t))
+    end.
+Proof. exact lossless_timers. Qed.
+Print Assumptions C10_collisions_lossless_timers.
+
+Theorem C10_collisions_lossless_sets : forall re_match th l ks,
+  kept (rekey_set re_match th) l = Done ks ->
+  exists out, dispatch_sets re_match th l = Done out /\ forall k,
+    match group k ks with
+    | [] => out !! k = None
+    | s :: g => out !! k = Some (MkSet (⋃ (s_vals <$> s :: g)) (zmax_list (s_ts <$> g) (s_ts s))
+                                       (s_src s) (s_tags s))
+    end.
+Proof. exact lossless_sets. Qed.
+Print Assumptions C10_collisions_lossless_sets.
+
+Theorem C10_collisions_lossless_gauges : forall re_match th l ks,
+  kept (rekey_gauge re_match th) l = Done ks ->
+  exists out, dispatch_gauges re_match th l = Done out /\ forall k,
+    match group k ks with
+    | [] => out !! k = None
+    | a :: g => exists r, out !! k = Some r
+                  /\ g_ts r = zmax_list (g_ts <$> g) (g_ts a) /\ g_src r = g_src a /\ g_tags r = g_tags a
+                  /\ exists w, w ∈ a :: g /\ g_ts w = g_ts r /\ g_val w = g_val r
+    end.
+Proof. exact lossless_gauges. Qed.
+Print Assumptions C10_collisions_lossless_gauges.
+
+(* DispatchMetricMap as a whole never panics, whatever the iteration orders *)
+Theorem C10_dispatch_never_panics : forall re_match th o, exists r, dispatch_list re_match th o = Done r.
+Proof. exact dispatch_list_total. Qed.
+Print Assumptions C10_dispatch_never_panics.
+
+(* re-keying itself never panics (for each series type: src_of / tags_of / retag are its accessors) *)
+Theorem C10_survivors_total : forall V re_match (src_of : V -> str) tags_of retag th l,
+  exists ks, kept (rekey re_match src_of tags_of retag th) l = Done ks.
+Proof. exact @kept_total. Qed.
+Print Assumptions C10_survivors_total.
+
+(* ... and which survivors are combined under a key does not depend on the iteration order *)
+Theorem C10_collisions_order_independent : forall V (rk : skey * V -> res (option (skey * V))) l1 l2 ks1 ks2,
+  l1 ≡ₚ l2 -> kept rk l1 = Done ks1 -> kept rk l2 = Done ks2 -> forall k, group k ks1 ≡ₚ group k ks2.
+Proof. exact @group_order_independent. Qed.
+Print Assumptions C10_collisions_order_independent.
